@@ -24,9 +24,6 @@ def hrefText (h : String) : String := Url.quote h
     percent-decode the path (UTF-8) -/
 def decodeTarget (t : String) : String := Url.unquote t
 
-/-- `read_href_element`: unquote, then take the path of the URL -/
-def readHref (t : String) : String := Url.urlsplit_path (Url.unquote t)
-
 /-- the path part of the Location of POST add-member: `quote(ensure_trailing_slash(path) + name)` -/
 def postLocationPath (path name : String) : String :=
   Url.quote (ensureTrailingSlash path ++ name)
